@@ -53,16 +53,43 @@ fn main() {
     out.flush();
 }
 
+/// Replays case lines from stdin.  Like generation it runs under a watchdog: a case that takes
+/// longer than `wire::TIMEOUT_MS` is answered with the observation `timeout`, and the process exits
+/// with status 3 after printing `RESUME <next line index>` on stderr (`replay <n>` skips n lines).
 fn replay() {
     use std::io::BufRead;
+    let start_at: usize = std::env::args().nth(2).and_then(|s| s.parse().ok()).unwrap_or(0);
+    let pending: std::sync::Arc<std::sync::Mutex<Option<(String, std::time::Instant, usize)>>> = Default::default();
+    {
+        let pending = pending.clone();
+        std::thread::spawn(move || loop {
+            std::thread::sleep(std::time::Duration::from_millis(200));
+            let g = pending.lock().unwrap();
+            if let Some((header, t0, idx)) = g.as_ref() {
+                if t0.elapsed().as_millis() as u64 > wire::TIMEOUT_MS {
+                    use std::io::Write;
+                    println!("{header}\ttimeout");
+                    let _ = std::io::stdout().flush();
+                    eprintln!("RESUME {}", idx + 1);
+                    std::process::exit(3);
+                }
+            }
+        });
+    }
     let stdin = std::io::stdin();
-    for line in stdin.lock().lines() {
+    for (idx, line) in stdin.lock().lines().enumerate() {
         let line = match line { Ok(l) => l, Err(_) => break };
+        if idx < start_at { continue; }
         let parts: Vec<&str> = line.split('\t').collect();
         if parts.len() < 2 { continue; }
         let family = parts[0];
         // the last field is the recorded observation; everything between is input
         let fields = &parts[1..parts.len() - 1];
+        {
+            let mut header = String::from(family);
+            for f in fields { header.push('\t'); header.push_str(f); }
+            *pending.lock().unwrap() = Some((header, std::time::Instant::now(), idx));
+        }
         let obs = std::panic::catch_unwind(|| l0::replay(family, fields).or_else(|| lex::replay(family, fields)).or_else(|| run::replay(family, fields)).or_else(|| rendergen::replay(family, fields)))
             .ok()
             .flatten()
@@ -71,6 +98,7 @@ fn replay() {
         for f in fields { out.push('\t'); out.push_str(f); }
         out.push('\t');
         out.push_str(&obs);
+        *pending.lock().unwrap() = None;
         println!("{out}");
     }
 }
